@@ -35,7 +35,7 @@ PROPS = {
               "Pw.runProg_wf", "Pw.loop_wf", "Pw.serveAfterVersion_wf", "Pw.handleCommand_wf", "Pw.copyRead_nf",
               "Pw.binRead_nf", "Pw.serverParams_nf", "Pw.quoteByte_nf", "Pw.colFormats_wf", "Pw.decodeBindTail_rep",
               "Pw.Props.C02.exHandlers_rep"],
-             [("session", 3000, 120000)], ["Consts", "Writer", "Session"], wf_oracle=True,
+             [("session", 3000, 120000), ("paramsd", 300, 8000)], ["Consts", "Writer", "Session"], wf_oracle=True,
              design_ref="§7 C02",
              level_text="Lean theorem C02_session: for every representable configuration and set of callbacks (ConfigRep, "
                         "HandlersRep: the strings they supply are NUL-free, counts fit their 16-bit fields, row values fit a field - "
@@ -101,13 +101,13 @@ PROPS = {
                         "(C10_session_step); during startup the connection ends silently (C10_startup); Slurp's chunks are <= L and sum "
                         "to the declared size. Tie: pinned guard `size > reader.MaxMessageSize || size < 0`, ReadMsgSize/reset/Slurp "
                         "facts; differential + expectation oracle over limits {16..8192} x lengths {L-1,L,L+1,L+2,2L,2L+1,3L+7, 0..3} x "
-                        "15 type bytes x positions, injected protocol frames inside skipped bodies, thorough: the 16 MiB default boundary.",
+                        "15 type bytes x positions, injected protocol frames inside skipped bodies, thorough: the 16 MiB default boundary. Campaigns tls and copy place the oversized message inside a TLS session and inside COPY-in.",
              level_note="Trusted: Lean kernel; bufio/io.ReadFull semantics (flat-stream reading, see C03); harness.",
              technique="Lean 4 proof (arithmetic on the length guard, omega) + differential correspondence with expectation oracle"),
     "C03": P("Pw.Props.C03",
              ["Pw.Props.C03.readFull_flat", "Pw.Props.C03.C03_readFull_segmentation", "Pw.Props.C03.C03_segmentation",
               "Pw.Props.C03.C03_exact_consumption", "Pw.Props.C03.C03_framing", "Pw.Props.C03.C03_accessors"],
-             [("seg", 2500, 100000), ("surplus", 1500, 60000), ("accessor", 4000, 300000)], ["Reader", "Accessors"],
+             [("seg", 2500, 100000), ("surplus", 1500, 60000), ("accessor", 4000, 300000), ("limit", 800, 40000)], ["Reader", "Accessors"],
              group_oracle=seg_group_oracle,
              design_ref="§7 C03",
              level_text="Lean theorems: io.ReadFull over ANY segmentation of a stream returns the flat stream's prefix and leaves the flat "
@@ -178,7 +178,8 @@ PROPS = {
               "Pw.Props.C08.C08_sound", "Pw.Props.C14.C14_count_mismatch", "Pw.Props.C14.C14_truncated_count",
               "Pw.Props.C20.C20_bounded", "Pw.Props.C18.C18_alloc_bound"],
              [("hostile", 4000, 300000), ("alloc", 600, 20000), ("session", 1200, 100000), ("limit", 600, 40000),
-              ("bincopy", 600, 40000), ("copy", 600, 40000), ("paramsd", 200, 6000), ("startup", 500, 40000)],
+              ("bincopy", 600, 40000), ("copy", 600, 40000), ("paramsd", 200, 6000), ("startup", 500, 40000),
+              ("bind", 500, 20000)],
              ["Panics", "Reader", "Params", "Accessors", "Session"],
              design_ref="§7 C04",
              level_text="PARTIAL. Lean theorem C04_no_crash: for EVERY configuration, EVERY handler program and EVERY client byte "
@@ -229,7 +230,7 @@ PROPS = {
                         "byte / with plaintext stuffed in the same segment / plaintext instead of a ClientHello, then a random "
                         "session inside TLS (auth, simple and extended query, COPY, CancelRequest, second SSLRequest, truncated "
                         "input); compared with the model on plaintext output and callback trace; the tap oracle checks that after "
-                        "the 'S' every raw byte from the server is a TLS record and that no protocol plaintext is visible.",
+                        "the 'S' every raw byte from the server is a TLS record and that no protocol plaintext is visible. The tap oracle also rejects a deadline left armed on a connection that stays open; FITS/BIG/AFTER probes check the configured limit inside the TLS session.",
              level_note="Partial: confidentiality and the TLS handshake are crypto/tls (Go standard library), trusted, not modelled; "
                         "the theorem's 'inside TLS' is the model's separation of the two streams, tied to the code by the tap oracle "
                         "and the differential campaign. The fate of a connection whose client stuffs plaintext (handshake failure "
@@ -251,7 +252,7 @@ PROPS = {
                         "Tie: differential campaign of multi-statement queries with writer programs (good/bad/unencodable rows, Empty, "
                         "Complete, calls after completion, Written probes, error returns, Unicode-blank queries); the oracle checks the "
                         "cycle grammar and the writer relations on the real transcript and on the results observed inside the real "
-                        "statement functions.",
+                        "statement functions. Script-level oracle on the real run: no statement of a query runs after an earlier one returned an error; a row with the wrong number of values is refused; a blank query is answered EmptyQueryResponse+ReadyForQuery without consulting the parser (parser calls = non-blank queries).",
              level_note="Trusted: Lean kernel; strings.TrimSpace (Unicode White_Space over UTF-8) is modelled; harness scripted handlers.",
              technique="Lean 4 proof (structural induction on handler programs and statement lists) + differential correspondence"),
     "C06": P("Pw.Props.C06Refine",
@@ -317,14 +318,14 @@ PROPS = {
                         "programs). Stray COPY messages outside COPY mode: C06_flush. Tie: differential campaign (CopyData/CopyDone/"
                         "CopyFail/Flush/Sync/foreign/oversized during COPY, handlers that stop early or return the error, stray COPY "
                         "messages afterwards); the oracle compares the reads the real handler observed and the reply notation with a "
-                        "simulation done by the generator.",
+                        "simulation done by the generator. The bincopy campaign covers the binary reader's end-of-stream handling (empty and shorter-than-signature streams); Terminate and Query are among the foreign messages.",
              level_note="Trusted: Lean kernel; harness. Extended-protocol COPY (Execute) shares the same reader; its cycle end is Sync.",
              technique="Lean 4 proof (induction on the message list / handler programs) + differential correspondence with expectation oracle"),
-    "C14": P("Pw.Props.C14",
+    "C14": P("Pw.Props.C14RoundTrip",
              ["Pw.Props.C14.fill_spec", "Pw.Props.C14.fill_rel", "Pw.Props.C14.take_sim", "Pw.Props.C14.takeLength_sim",
               "Pw.Props.C14.fields_sim", "Pw.Props.C14.row_sim", "Pw.Props.C14.skipHeader_sim", "Pw.Props.C14.first_sim",
               "Pw.Props.C14.later_sim", "Pw.Props.C14.C14_chunking", "Pw.Props.C14.C14_count_mismatch",
-              "Pw.Props.C14.C14_truncated_count"],
+              "Pw.Props.C14.C14_truncated_count", "Pw.Props.C14.C14_roundtrip", "Pw.Props.C14.fFields_roundtrip"],
              [("bincopy", 3000, 200000)], ["Consts"],
              group_oracle=seg_group_oracle,
              design_ref="§7 C14",
@@ -338,7 +339,7 @@ PROPS = {
                         "remaining payloads = remaining stream'. Tie: differential campaign of table shapes/row sets over "
                         "int2/4/8,text,bytea,bool,uuid, header/trailer optional, 5 chunkings per stream (single, 1-byte, random, per "
                         "row, cuts inside signature/length words/values), corruptions; oracles: rows returned by the real reader = rows "
-                        "encoded, and identical results across the chunkings of a stream.",
+                        "encoded, and identical results across the chunkings of a stream. Oracle expectations for damaged streams: a lying field count yields exactly the rows before it and then an error; a truncated stream never yields a row the client did not encode; a stream cut inside a row is never reported as complete. Column types include a user-registered type (ExtendTypes).",
              level_note="Trusted: Lean kernel; pgx binary decoders (DecodeValue) are modelled (Codec.lean), tied by the campaign. The "
                         "reassembling reader is the repaired code (fix: commit 'decode binary COPY rows independently of CopyData "
                         "boundaries').",
@@ -363,7 +364,7 @@ PROPS = {
     "C12": P("Pw.Props.C12",
              ["Pw.Props.C12.C12_client_params", "Pw.Props.C12.C12_missing_terminator", "Pw.Props.C12.C12_param_values",
               "Pw.Props.C12.C12_params_present", "Pw.Props.C12.C12_cancel", "Pw.Props.C12.C12_cancel_after_N"],
-             [("startup", 3000, 200000), ("multi", 400, 20000), ("tls", 600, 30000)], ["Startup", "Consts", "Shared"],
+             [("startup", 3000, 200000), ("multi", 400, 20000), ("tls", 600, 30000), ("auth", 600, 20000)], ["Startup", "Consts", "Shared"],
              design_ref="§7 C12",
              level_text="Lean theorems: for every list of startup key/value pairs (duplicates, empty values) the handlers' client "
                         "parameters are exactly the pairs sent, last value winning, bytes after the terminator ignored; a packet without "
@@ -375,12 +376,12 @@ PROPS = {
                         "(maps.Clone before the stores), the pinned list of Server-field writes, and checked at run time (user's map "
                         "compared before/after). Tie: differential campaign (startup shapes, cancel stages, configured maps/versions) "
                         "with the oracle reading the parameters inside real callbacks and on the wire, plus a multi-connection campaign "
-                        "(2-4 users on one server, phased and concurrent) checking that no connection sees another one's values.",
+                        "(2-4 users on one server, phased and concurrent) checking that no connection sees another one's values. Also: overlapping clear-text authentications (the validator must be asked about THIS connection's user and database), exactly one AuthenticationOk, Cancel inside TLS.",
              level_note="Trusted: Lean kernel; Go map semantics (iteration order canonicalised by sorting ParameterStatus runs); harness.",
              technique="Lean 4 proof (induction on the pair list, membership reasoning on the parameter map) + differential correspondence"),
     "C19": P("Pw.Props.C19",
              ["Pw.Props.C19.C19_chain", "Pw.Props.C19.C19_failure_ends", "Pw.Props.C19.C19_terminate", "Pw.Props.C19.mwEvents_succ"],
-             [("lifecycle", 3000, 150000), ("multi", 300, 10000)], ["Startup", "Session"],
+             [("lifecycle", 3000, 150000), ("multi", 300, 10000), ("auth", 600, 20000)], ["Startup", "Session"],
              design_ref="§7 C19",
              level_text="Lean theorems: for ANY number of registered middlewares they run once each, in registration order, up to and "
                         "including the first failing one, write nothing, and the chain succeeds exactly when none fails (induction on the "
@@ -408,7 +409,7 @@ PROPS = {
                         "writeParameters, caches created per connection) and by the campaign: 2-4 concurrent sessions (overlapping "
                         "statement/portal names, different users and row values, phased and freely concurrent with random pacing) on a "
                         "harness BUILT WITH -race; every connection's real transcript and trace must equal the solo model run, and any "
-                        "race report (halt_on_error) is a violation with the session set as replay.",
+                        "race report (halt_on_error) is a violation with the session set as replay. Solo oracle on the real code: after the concurrent run every connection's traffic is served again alone by a fresh server of the same configuration and transcript and callback trace are compared (solo=).",
              level_note="partial: the Go memory model is not formalised; freedom from data races in the real code (incl. pgx) is observed "
                         "by the race detector on generated schedules, not proved. Trusted: Lean kernel; harness.",
              technique="Lean 4 proof (noninterference of a product system, induction on schedules) + differential correspondence under the race detector"),
@@ -446,7 +447,7 @@ PROPS = {
     "C18": P("Pw.Props.C18",
              ["Pw.Props.C18.inv_init", "Pw.Props.C18.inv_reset", "Pw.Props.C18.inv_take", "Pw.Props.C18.inv_run",
               "Pw.Props.C18.C18_write_disjoint", "Pw.Props.C18.C18_never_overwritten", "Pw.Props.C18.C18_alloc_bound"],
-             [("heap", 2000, 200000), ("retain", 2000, 150000), ("names", 600, 20000)], ["Reader", "Accessors"],
+             [("heap", 2000, 200000), ("retain", 2000, 150000), ("names", 600, 20000), ("multi", 400, 12000)], ["Reader", "Accessors"],
              design_ref="§7 C18",
              level_text="Lean theorems about a heap model of reader.Msg (arenas, window = (arena, offset, len, cap), reset as in "
                         "reader.go): for EVERY history of message reads (any sizes: around the 4 KiB granule, chunks of skipped oversized "
@@ -457,7 +458,7 @@ PROPS = {
                         "compared with the model (arena identity from the slice's end address), views returned by GetBytes are "
                         "re-checked; end to end, scripted callbacks RETAIN query texts, parameter values, passwords, user names and COPY "
                         "payloads and compare them with private copies after later traffic incl. oversized (non-multiple-of-limit) "
-                        "messages, failed batches and COPY.",
+                        "messages, failed batches and COPY. The multi campaign adds a connection that is closed before the others start (its retained data must survive their traffic) and the names campaign parameter values held by portals.",
              level_note="Trusted: Lean kernel; Go slice/allocator semantics (a window never outlives its arena while referenced); the "
                         "unsafe string view of GetString is the same memory as the byte view modelled here.",
              technique="Lean 4 proof (inductive invariant over a heap model) + differential correspondence on the real reader's layout"),
